@@ -29,6 +29,8 @@ def workloads(tier):
         wl("del-t|sel-t", [("A", ["delete from t where a = 1"]), ("B", ["select count(*) from t"])], ["t", "u"]),
         wl("ins-t|del-t", [("A", ["insert into t values (7)"]), ("B", ["delete from t where a = 7"])], ["t", "u"]),
         wl("drop-t|drop-t", [("A", ["drop table t"]), ("B", ["drop table t"])], ["t", "u"]),
+        wl("del-t|del-t", [("A", ["delete from t where a = 1"]), ("B", ["delete from t where a = 1"])], ["t", "u"]),
+        wl("del-t1|del-t2", [("A", ["delete from t where a = 1"]), ("B", ["delete from t where a = 2"])], ["t", "u"]),
         wl("drop-u|del-u", [("A", ["drop table u"]), ("B", ["delete from u where a = 1"])], ["t", "u"]),
         wl("create-y|drop-u", [("A", ["create table y(a int)", "insert into y values (5)"]), ("B", ["drop table u"])], ["t", "u", "y"]),
         wl("ins-u;sel-u|del-u", [("A", ["insert into u values (2)", "select count(*) from u"]), ("B", ["delete from u where a = 1"])], ["t", "u"]),
@@ -43,6 +45,15 @@ def workloads(tier):
             wl("3:ins|ins|del", [("A", ["insert into t values (7)"]), ("B", ["insert into t values (8)"]), ("C", ["delete from t where a = 7"])], ["t", "u"]),
             wl("3:create|create|drop", [("A", ["create table y(a int)"]), ("B", ["create table y(a int)"]), ("C", ["drop table u"])], ["t", "u", "y"]),
         ]
+    # the memory engine: the same DDL / DML races at the gates of Database::run (bind -> plan -> execute); no compactor, no reopen
+    mem = []
+    for w in ws:
+        if w["name"] in ("create-y|create-y", "create-y;ins-y|ins-y", "drop-t|ins-t", "drop-t|sel-t", "drop-t;create-t|ins-t", "ins-t|ins-t", "del-t|sel-t",
+                         "ins-t|del-t", "drop-t|drop-t", "drop-u|del-u", "create-y;drop-y|create-y", "del-t|del-t", "del-t1|del-t2"):
+            m = json.loads(json.dumps(w))
+            m.update(name="mem:" + w["name"], engine="mem", passes=0, reopen=False)
+            mem.append(m)
+    ws += mem
     for w in ws:
         w["bound"] = 2 if tier == "quick" else 3
         w["max_execs"] = 1500 if tier == "quick" else 40000
@@ -132,7 +143,7 @@ def explain(w, stmts, final):
 def run(tier, seed):
     ws = workloads(tier)
     chk = core.Check("C10", tier, "model_checking",
-                     f"{len(ws)} workloads (2-3 sessions, 1-2 statements each: CREATE/DROP TABLE incl. same names, INSERT, DELETE, SELECT count; one compactor pass) x every "
+                     f"{len(ws)} workloads (2-3 sessions, 1-2 statements each: CREATE/DROP TABLE incl. same names, INSERT, DELETE, SELECT count; one compactor pass; 13 of them also on the memory engine) x every "
                      f"interleaving at the gates [run.begin, run.planned, txn.pinned, commit.begin, create_table.persisted, drop_table.applied, compactor.pass] with <= {ws[0]['bound']} preemptions; "
                      "a case = (workload, schedule); oracle: exists serial order of the acknowledged statements explaining all results and the final tables; "
                      "no panic/deadlock; shutdown+reopen succeed and show the same tables; non-trivial = >=1 preemption", seed)
@@ -167,6 +178,9 @@ def run(tier, seed):
             sig, detail = "task-panic", {"panics": o["bg_panics"][:2]}
         elif o["shutdown"] != "ok":
             sig, detail = "shutdown-fails", {"shutdown": o["shutdown"]}
+        elif w.get("engine") == "mem":
+            if not explain(w, o["stmts"], final):
+                sig, detail = "no-serial-order", {"stmts": o["stmts"], "final": final}
         elif o["reopen_open"] != "ok":
             sig, detail = "reopen-fails", {"reopen": o["reopen_open"], "stmts": o["stmts"]}
         else:
